@@ -55,29 +55,47 @@ peg::parser! {
             ['\\'] [c] { c.to_string() }
 
         rule bracket_expression() -> String =
-            "[" invert:(invert_char()?) members:bracket_member()+ "]" {
-                let mut members = members.into_iter().flatten().collect::<Vec<_>>();
+            "[" invert:(invert_char()?) first:leading_close_bracket()? rest:bracket_member()* "]" {?
+                // There must be at least one member between the brackets.
+                if first.is_none() && rest.is_empty() {
+                    return Err("bracket member");
+                }
+
+                let mut members = first.into_iter().chain(rest).flatten().collect::<Vec<_>>();
 
                 // If we completed the parse but ended up with no valid members
                 // of the bracket expression, then return a regex that matches nothing.
                 // (Or in the inverted case, matches everything.)
                 if members.is_empty() {
                     if invert.is_some() {
-                        String::from(".")
+                        Ok(String::from("."))
                     } else {
-                        String::from("(?!)")
+                        Ok(String::from("(?!)"))
                     }
                 } else {
                     if invert.is_some() {
                         members.insert(0, String::from("^"));
                     }
 
-                    std::format!("[{}]", members.join(""))
+                    Ok(std::format!("[{}]", members.join("")))
                 }
             }
 
         rule invert_char() -> bool =
             ['!' | '^'] { true }
+
+        // A `]` right after the opening bracket (or after the inversion character)
+        // is an ordinary member of the bracket expression, not its terminator.
+        rule leading_close_bracket() -> Option<String> =
+            "]" "-" to:single_char_bracket_member() {
+                let (to_str, to_c) = to;
+                if ']' <= to_c {
+                    Some(std::format!(r"\]-{to_str}"))
+                } else {
+                    None
+                }
+            } /
+            "]" { Some(String::from(r"\]")) }
 
         rule bracket_member() -> Option<String> =
             e:char_class_expression() { Some(e) } /
